@@ -918,7 +918,7 @@ func main() {
 		}
 		// 2. Random scenarios; each gets one or two random kill points.
 		nExhaustive := len(scenarios)
-		for i := 0; i < c.Size(30, 1500); i++ {
+		for i := 0; i < c.Size(30, 1000); i++ {
 			s := genScenario(c.R, "trace")
 			s.fault = faults[c.R.Intn(len(faults))]
 			if c.R.Chance(1, 3) {
